@@ -1093,3 +1093,99 @@ func ruleErrLocSplit(c *Ctx) []Obligation {
 	}
 	return []Obligation{ok(R, con, c.InstrPos(at), fmt.Sprintf("the pattern %q takes name, line and column from names with colons, plain names and the nameless form alike", pattern))}
 }
+
+// ---------------------------------------------------------------- SCOPE.INCLUDEWALK (w10 observations C09/3, C13/O1)
+
+func init() {
+	register(&Rule{Name: "SCOPE.INCLUDEWALK", Props: []string{"C09", "C13"}, Floor: 2,
+		Doc: "the search for a top-level typedef goes through the submodules a module includes and those they include in turn, from the local and from the imported lookup alike",
+		Run: ruleScopeIncludeWalk})
+}
+
+func ruleScopeIncludeWalk(c *Ctx) []Obligation {
+	const R = "SCOPE.INCLUDEWALK"
+	find := c.Fn("yang.(*typeDictionary).find")
+	modT := c.Named("yang", "Module")
+	incT := c.Named("yang", "Include")
+	if find == nil || modT == nil || incT == nil {
+		return []Obligation{undecided(R, "typedef search", "-", "(*typeDictionary).find / Module / Include not found")}
+	}
+	fInclude, fLink := FieldVar(modT, "Include"), FieldVar(incT, "Module")
+	// the functions that look typedefs up while walking an Include list, and whether the walk is transitive
+	walkers := map[*ssa.Function]bool{}
+	for _, fn := range c.Funcs {
+		if !c.isRepoFn(fn) || len(c.callsTo(fn, find)) == 0 {
+			continue
+		}
+		walks, transitive := false, false
+		eachInstr(fn, func(in ssa.Instruction) {
+			v, isV := in.(ssa.Value)
+			if !isV {
+				return
+			}
+			_, f, base := loadedField(v)
+			if f != fInclude || base == nil {
+				return
+			}
+			walks = true
+			operandClosure(base, func(x ssa.Value) {
+				if _, lf, _ := loadedField(x); lf == fLink {
+					transitive = true
+				}
+			})
+			for _, ci := range c.callsTo(fn, fn) {
+				for _, a := range ci.Common().Args {
+					if _, lf, _ := loadedField(a); lf == fLink {
+						transitive = true
+					}
+				}
+			}
+		})
+		if walks {
+			walkers[fn] = transitive
+		}
+	}
+	var obs []Obligation
+	for _, entry := range []struct{ name, what string }{
+		{"yang.(*Type).resolve", "a type name without a foreign prefix"},
+		{"yang.(*typeDictionary).findExternal", "a type name with the prefix of an import"},
+	} {
+		fn := c.Fn(entry.name)
+		con := fmt.Sprintf("%s is also looked for in the submodules of the module, transitively", entry.what)
+		if fn == nil {
+			obs = append(obs, undecided(R, con, "-", entry.name+" not found"))
+			continue
+		}
+		// the walker this lookup uses: itself, or a function it calls directly
+		var used []*ssa.Function
+		if _, isW := walkers[fn]; isW {
+			used = append(used, fn)
+		}
+		eachInstr(fn, func(in ssa.Instruction) {
+			if ci, isC := in.(ssa.CallInstruction); isC {
+				if cal := ci.Common().StaticCallee(); cal != nil {
+					if _, isW := walkers[cal]; isW && cal != fn {
+						used = append(used, cal)
+					}
+				}
+			}
+		})
+		switch {
+		case len(used) == 0:
+			obs = append(obs, bad(R, con, c.Pos(fn.Pos()), "the lookup walks no Include list: a typedef written in a submodule is unknown to the module"))
+		default:
+			all := true
+			for _, w := range used {
+				if !walkers[w] {
+					all = false
+				}
+			}
+			if all {
+				obs = append(obs, ok(R, con, c.Pos(used[0].Pos()), "the Include lists of modules reached through an include link are walked too"))
+			} else {
+				obs = append(obs, bad(R, con, c.Pos(used[0].Pos()), "only the Include list of the module itself is walked: a typedef in a submodule that a submodule includes (m includes s1, s1 includes s2; RFC 6020 7.1.6) is an unknown type, while a grouping or identity in the same place resolves"))
+			}
+		}
+	}
+	return obs
+}
